@@ -6,7 +6,7 @@ import session
 import explore
 from props import session_common as sc
 
-COQ_TARGETS = ['props/C03.vo']
+COQ_TARGETS = ['props/C03.vo', 'model/YSessionSx.vo']
 TRUSTED = sc.TRUSTED
 ASSUMPTIONS = sc.ASSUMPTIONS + ['timers are fired by the driver at their deadline (time never skips a pending timer); '
                                 'same-instant expiry/arrival orders are both explored']
